@@ -13,7 +13,9 @@ RULE = ('70% E1 / 30% E2 histories driven to a quiescent state (cycle until '
         'a cycle changes nothing, <=4 tries, else the case is discarded and '
         'counted) with servers going down/up, removed and re-added (holes in '
         'children), mixed partitions/traits, several affinities, pack and '
-        'spread; then one generated probe instance is submitted and one '
+        'spread, freeze/work/unfreeze; then one generated probe instance (half '
+        'of them aimed: demand = the exact free room of one up server) is '
+        'submitted and one '
         'cycle run. Violation iff the probe is pending although a leaf '
         'server fits it by ground truth (state up, partition, traits, lease '
         'before reboot, declared room in every dimension, true affinity '
@@ -38,8 +40,9 @@ BUDGET = {'quick': 6000, 'thorough': 160000}
 PROFILE = {
     'max_pods': 3, 'max_racks': 3,
     'weights': {'app': 10, 'down': 4, 'up': 3, 'rmsrv': 3, 'readd': 3,
-                'rm': 4, 'strat': 3, 'srv': 2},
-    'force': ['rm'],
+                'rm': 4, 'strat': 3, 'srv': 2, 'freeze': 2, 'unfreeze': 3,
+                'freezework': 3},
+    'force': ['rm', 'freezework'],
     'max_ops': 30,
 }
 E2_PROFILE = {
@@ -63,7 +66,11 @@ def strategy_case(draw):
         ngroups = len(case['groups'])
         probe = draw(gen.app_op(ngroups))
         probe[9] = False
-    return dict(case, probe=probe)
+    # aimed probes: the demand becomes the exact free room of one up server
+    # of the quiescent state (stresses the capacity aggregates of its
+    # ancestors: often that server is the only one that fits)
+    fit = draw(st.one_of(st.none(), st.integers(0, 15)))
+    return dict(case, probe=probe, probe_fit=fit)
 
 
 def strategy(tier):
@@ -134,7 +141,23 @@ def execute(case, stats):
         if not case.get('probe'):
             return False
         crashes = getattr(sim, 'master_crashes', 0)
-        names = sim.apply(case['probe'])
+        probe_op = list(case['probe'])
+        if case.get('probe_fit') is not None:
+            ups = sorted(
+                (n, srv) for n, srv in sim.servers().items()
+                if srv.state is scheduler.State.up and n in sim.decl_servers)
+            if ups:
+                sname, srv = ups[case['probe_fit'] % len(ups)]
+                room = list(sim.decl_servers[sname]['cap'])
+                for other in srv.apps:
+                    for dim in range(3):
+                        room[dim] -= sim.decl_apps[other]['demand'][dim]
+                unit = getattr(sim, 'unit', 1)
+                room = [max(0, int(r) // unit) if dim != 1 else max(0, int(r))
+                        for dim, r in enumerate(room)]
+                probe_op[3] = room
+                stats.count('probe_aimed_exact_fit')
+        names = sim.apply(probe_op)
         probe = names[0] if isinstance(names, list) else names
         if e2:
             sim.refresh_app_decl()
